@@ -58,3 +58,7 @@ m = dict(
     not_applicable=na)
 json.dump(m, open(os.path.join(here, '..', 'MANIFEST.json'), 'w'), indent=1)
 print('MANIFEST: %d checks, %d not claimed' % (len(checks), len(na)))
+
+# fingerprints of the anchored source files as they are in /repo now (the checks search harder when one differs)
+import subprocess
+subprocess.run([("/venv/bin/python" if os.path.exists("/venv/bin/python") else sys.executable), os.path.join(here, "update_anchors.py")], check=False)   # same interpreter as the checks: f-strings tokenise differently across versions
